@@ -485,13 +485,20 @@ def labels_not_in_numpy(repo, rep, modules=("analytic", "simulation")):
     NP = ("np.array", "np.asarray", "np.isin", "np.in1d", "np.unique", "np.sort", "np.intersect1d", "np.setdiff1d", "np.union1d",
           "numpy.array", "numpy.asarray", "numpy.isin", "numpy.in1d")
 
-    def label_collection(e):
+    ENV = [{}]
+
+    def label_collection(e, depth=0):
         if isinstance(e, ast.Name) and e.id in _LABEL_COLLECTIONS:
             return True
+        if isinstance(e, ast.Name) and depth < 4 and e.id in ENV[0]:
+            # a local that is (on some path) bound to a collection of labels
+            return any(label_collection(v, depth + 1) for v in ENV[0][e.id])
+        if isinstance(e, ast.BinOp) and isinstance(e.op, ast.Add):
+            return label_collection(e.left, depth + 1) or label_collection(e.right, depth + 1)
         if isinstance(e, ast.Call):
             ch = attr_chain(e.func) or ""
             if ch in ("list", "tuple", "sorted", "set") and e.args:
-                return label_collection(e.args[0])
+                return label_collection(e.args[0], depth + 1)
             if ch in ("G.nodes", "G.nodes()") or (ch.endswith(".nodes") and not e.args):
                 return True
         if isinstance(e, ast.Name) and e.id == "G":
@@ -502,6 +509,11 @@ def labels_not_in_numpy(repo, rep, modules=("analytic", "simulation")):
         for f in repo.all_funcs():
             if f.module != m:
                 continue
+            env = {}
+            for x in own_nodes(f.node):
+                if isinstance(x, ast.Assign) and len(x.targets) == 1 and isinstance(x.targets[0], ast.Name):
+                    env.setdefault(x.targets[0].id, []).append(x.value)
+            ENV[0] = env
             for c in own_nodes(f.node):
                 if isinstance(c, ast.Call) and (attr_chain(c.func) or "") in NP:
                     n += 1
